@@ -4,7 +4,7 @@
    the surface syntax of an abstract program under a style number, and
    Meaning.meaning what the program denotes, computed without gmars. *)
 From GM Require Import Base Text Token Lexer Scanner ExprSpec ExprEval Parser Compile Sim Prog Meaning Render AsmSpec
-     C03Proof C03Lexer C06Proof C09Proof C09GenCompile C09GenLex C08Proof C08Block C08Scan C08Passes C03Equ C03Parse C03Compile C03Labels C03EquCompile C03EquLabels.
+     C03Proof C03Lexer C06Proof C09Proof C09GenCompile C09GenLex C08Proof C08Block C08Scan C08Passes C03Equ C03Parse C03Compile C03Labels C03EquCompile C03EquLabels C08Flat C03Flat.
 From Coq Require Import Lia.
 Open Scope Z_scope.
 
@@ -342,6 +342,89 @@ Theorem C03_programs_with_for_partial :
     compile_warrior cfg inp = COk code start (dmeta (mkPM [] [] []) es).
 Proof. intros cfg spell. exact (for_program_tokens spell cfg). Qed.
 Print Assumptions C03_programs_with_for_partial.
+
+(* ... AND THE SIMPLEST BLOCKS CLOSED: for a FOR block without labels or counter whose body is unlabelled instruction and
+   comment lines, the derivation of `unrolls` is constructed for every such text (C08Flat, C03Flat): when the lines in front of
+   the block (labels written without colons), the body written out count times (count >= 1, any expression that evaluates
+   with the EQU symbols in front of the block) and the lines behind render a program with a meaning, the text with the
+   block is assembled to that meaning *)
+Theorem C03_programs_with_plain_for_partial :
+  forall spell, (forall id, spell id <> []) ->
+  forall cfg org (its : list Prog.item) es1 bodyEs es2 lead count n forw rofw skip nm au code start inp toks rkN,
+    let es := es1 ++ concat (repeat bodyEs (S n)) ++ es2 in
+    validate cfg = true ->
+    spell_ok spell (flat_map il_labels (instrs its) ++ map fst (equs its)) ->
+    renders_doc2 spell org its es -> shape2_ok es -> Forall (fun xk => (1 <= snd xk)%nat) es ->
+    ranked spell (equs its) rkN ->
+    bodies_known cfg its ->
+    meaning (mconf_of cfg) (mkProg its org None nm au []) = MOk code start ->
+    Forall (fun xk => junk_free (fst xk)) es1 -> Forall (fun xk => flat_elem (fst xk)) bodyEs ->
+    t_typ forw = tokText -> tok_is_pseudo forw = true -> lower_is (t_val forw) "for" = true -> Forall plain_tok count ->
+    t_typ rofw = tokText -> tok_is_pseudo rofw = true -> lower_is (t_val rofw) "for" = false -> lower_is (t_val rofw) "rof" = true ->
+    Forall plain_tok skip ->
+    (forall syms, front_symbols (doc_plines lead es1) = Some syms ->
+       expand_and_evaluate (filter noncomment count) (with_constants cfg syms) = Some (EOk (Z.of_nat (S n)))) ->
+    lex_ascii inp = Some toks -> counts_modelled toks None = true ->
+    toks = repeat nl_tok lead ++ body es1 ++ (forw :: count ++ [nlt]) ++ body bodyEs ++ rofw :: skip ++ (nlt :: body es2 ++ [tEOF]) ->
+    compile_warrior cfg inp = COk code start (dmeta (mkPM [] [] []) es).
+Proof. exact flat_for_program. Qed.
+Print Assumptions C03_programs_with_plain_for_partial.
+
+Module C03ForExample.
+Definition spell := C03EquExample.spell.
+Definition e_count : nexpr := NBin OAdd (NName 20) (NLit 1).
+Definition l_mov := mkIL [10%N] MOV None (mkOp None (NName 11)) (Some (mkOp (Some B_INDIRECT) (NName 20))).
+Definition l_add := mkIL [] ADD None (mkOp (Some IMMEDIATE) (NName 20)) (Some (mkOp None (NName 10))).
+Definition l_dat := mkIL [11%N] DAT None (mkOp (Some IMMEDIATE) (NLit 0)) (Some (mkOp (Some IMMEDIATE) (NLit 0))).
+Definition its : list Prog.item := [ IEqu 20 (NLit 2); IInstr l_mov; IInstr l_add; IInstr l_add; IInstr l_add; IInstr l_dat ].
+Definition es1 : list (lelem * nat) :=
+  [ (LEqu [LName (s2t "step")] (s2t "equ") (etoks spell (NLit 2)) None, 1%nat);
+    (LInstr (mkTL [LName (s2t "start")] (s2t "mov") None (etoks spell (NName 11)) (Some (Some 64%N, etoks spell (NName 20))) None), 1%nat) ].
+Definition bodyEs : list (lelem * nat) :=
+  [ (LComment (s2t "; three of these"), 1%nat);
+    (LInstr (mkTL [] (s2t "add") (Some 35%N) (etoks spell (NName 20)) (Some (None, etoks spell (NName 10))) None), 1%nat) ].
+Definition es2 : list (lelem * nat) :=
+  [ (LInstr (mkTL [LName (s2t "bomb")] (s2t "dat") (Some 35%N) (etoks spell (NLit 0)) (Some (Some 35%N, etoks spell (NLit 0))) None), 1%nat) ].
+Definition es := es1 ++ concat (repeat bodyEs 3) ++ es2.
+Definition source : text :=
+  s2t "step equ 2" ++ [10%N] ++ s2t "start mov bomb, @step" ++ [10%N] ++ s2t "  for step+1" ++ [10%N]
+  ++ s2t "; three of these" ++ [10%N] ++ s2t "  add #step, start" ++ [10%N] ++ s2t "  rof" ++ [10%N] ++ s2t "bomb dat #0, #0" ++ [10%N].
+Definition T := mkT tokText.
+Definition toks : list token :=
+  repeat nl_tok 0 ++ body es1 ++ (T (s2t "for") :: etoks spell e_count ++ [nlt]) ++ body bodyEs ++ T (s2t "rof") :: [] ++ (nlt :: body es2 ++ [tEOF]).
+Definition cfg94 := C03EquExample.cfg94.
+Definition code : list instr :=
+  [mkI MOV mI 4 DIRECT 2 B_INDIRECT; mkI ADD mAB 2 IMMEDIATE 7999 DIRECT; mkI ADD mAB 2 IMMEDIATE 7998 DIRECT;
+   mkI ADD mAB 2 IMMEDIATE 7997 DIRECT; mkI DAT mF 0 IMMEDIATE 0 IMMEDIATE].
+Definition rkN (id : N) : nat := 0%nat.
+
+Example conclusion : compile_warrior cfg94 source = COk code 0 (dmeta (mkPM [] [] []) es).
+Proof.
+  assert (Hne : forall id, spell id <> []) by (intros id; unfold spell, C03EquExample.spell; repeat (destruct (_ =? _)%N); discriminate).
+  apply (C03_programs_with_plain_for_partial spell Hne cfg94 None its es1 bodyEs es2 0%nat (etoks spell e_count) 2%nat
+           (T (s2t "for")) (T (s2t "rof")) [] None None code 0%Z source toks rkN); try reflexivity.
+  - constructor.
+    + repeat split; reflexivity.
+    + intros id Hid. cbn in Hid. destruct Hid as [<-|[<-|[<-|[]]]]; (split; [reflexivity|]); cbn; intros H;
+        repeat (destruct H as [H|H]; [discriminate H|]); exact H.
+    + intros a b Ha Hb. cbn in Ha, Hb. destruct Ha as [<-|[<-|[<-|[]]]], Hb as [<-|[<-|[<-|[]]]]; try reflexivity; intros H; discriminate H.
+    + cbn. repeat constructor; cbn; intuition discriminate.
+    + intros id. unfold spell, C03EquExample.spell. repeat (destruct (_ =? _)%N); discriminate.
+  - apply R2equ; [reflexivity|reflexivity|repeat constructor; cbn; lia|].
+    apply R2instr; [repeat split; reflexivity|].
+    do 3 (apply R2comment; [reflexivity|]; apply R2instr; [repeat split; reflexivity|]).
+    apply R2instr; [repeat split; try reflexivity; cbn; lia|apply R2nil].
+  - repeat constructor.
+  - repeat constructor.
+  - intros n e Hin x Hx. cbn in Hin. destruct Hin as [Hin|[]]. inversion Hin; subst n e. destruct Hx.
+  - unfold bodies_known. cbn [equs its]. repeat constructor.
+  - repeat constructor.
+  - repeat constructor.
+  - repeat constructor; cbn; discriminate.
+  - constructor.
+  - intros syms H. vm_compute in H. inversion H; subst syms. vm_compute. reflexivity.
+Qed.
+End C03ForExample.
 
 (* missing from C03_full_statement: that the token-level relation `unrolls` holds between the rendering of every abstract
    program with FOR blocks and the rendering of its Render.unroll (C08), ;assert lines (C07), and EQU definitions together
